@@ -1,5 +1,6 @@
 import WV.Proofs.C02_Inv
 import WV.Proofs.C02_Once
+import WV.Props.C18obs
 
 /-!
 C02 — the mailbox server cannot forge, alter, re-label, replay or reflect messages.
@@ -369,5 +370,43 @@ theorem each_phase_once_and_honest {C : Crypto} (hC : C.Ideal) (cfg : Cfg) (evs 
 example : (run toy demoCfg {} demoEvs).app.countP isVer = 1 := by decide
 
 example : (run toy demoCfg {} demoEvs).nextRx = 1 := by decide
+
+/-! ## the Deferred API on top (`_DeferredWormhole`, `SequenceObserver`, `OneShotObserver` — C18's `WV.Observer`) -/
+
+/-- the plaintexts `Boss.W_received` handed to the façade, in order -/
+def recvPts (l : List AppEv) : List Bytes := l.filterMap (fun e => match e with | .received _ pt => some pt | _ => none)
+
+/-- the plaintexts `Boss.process_version` handed on, in order (at most one: `phase_at_most_once`) -/
+def verPts (l : List AppEv) : List Bytes := l.filterMap (fun e => match e with | .gotVersions pt => some pt | _ => none)
+
+/-- Composition with the observer model (values travel as `encNat`, which is injective): let `ops` be ANY
+    interleaving of application calls (`get_message()`, `get_versions()`, … issued one at a time, pipelined, or from
+    inside callbacks), eventual-queue turns and Boss-side calls, not yet closed, whose Boss side is what a C02 run
+    hands over.  Then the j-th `get_message()` Deferred has exactly one firing scheduled, with the j-th plaintext
+    `W_received` handed over — i.e. (`phase_at_most_once`, `delivered_was_sealed`) the plaintext sealed for phase `j`
+    — and every `get_versions()` Deferred exactly one, with the version plaintext `process_version` handed on. -/
+theorem deferred_api_hands_over_the_sealed_phases (C : Crypto) (cfg : Cfg) (evs : List Ev)
+    (ops : List WV.Observer.Op) (hnc : ∀ o ∈ ops, o.isClosed = false)
+    (hrecv : WV.Observer.receivedOf ops = (recvPts (run C cfg {} evs).app).map encNat)
+    (hver : WV.Observer.firstGot .versions ops = ((verPts (run C cfg {} evs).app).head?).map encNat) :
+    (∀ (j d : Nat) (pt : Bytes), (WV.Observer.msgIds (WV.Props.C18obs.after ops).regs)[j]? = some d →
+        (recvPts (run C cfg {} evs).app)[j]? = some pt →
+        WV.Observer.outcomes (WV.Props.C18obs.after ops) d = [⟨d, .val (encNat pt)⟩]) ∧
+    (∀ (d : Nat) (reg : WV.Observer.Reg) (pt : Bytes), (WV.Props.C18obs.after ops).regs[d]? = some reg → reg.kind = .os .versions →
+        (verPts (run C cfg {} evs).app).head? = some pt →
+        WV.Observer.outcomes (WV.Props.C18obs.after ops) d = [⟨d, .val (encNat pt)⟩]) := by
+  constructor
+  · intro j d pt hd hpt
+    have h := (WV.Props.C18obs.observer_fifo ops hnc).1
+    apply h (d, encNat pt)
+    rw [hrecv]
+    apply List.mem_of_getElem?
+    show ((WV.Observer.msgIds (WV.Props.C18obs.after ops).regs).zip ((recvPts (run C cfg {} evs).app).map encNat))[j]? = some (d, encNat pt)
+    rw [List.getElem?_zip_eq_some]
+    exact ⟨hd, by rw [List.getElem?_map, hpt]; rfl⟩
+  · intro d reg pt hreg hk hpt
+    have h := WV.Props.C18obs.oneshot_first_value ops hnc .versions d reg hreg hk
+    rw [hver, hpt] at h
+    exact h
 
 end WV.Props.C02
